@@ -52,11 +52,20 @@ def cases(rng, tier):
         out.append({'seed': rng.getrandbits(30), 'cls': 'mpo', 'mode': rng.choice(['left', 'right']), 'L': rng.choice([1, 2, 2, 3, 3, 4]),
                     'd': rng.choice([2, 2, 3]), 'qclass': 'charged', 'dtype': rng.choice(['complex', 'real']), 'entries': rng.choice(['float', 'int']),
                     'connected': True, 'rankdef': False, 'Dmax': rng.choice([2, 3]), 'charged': True})
+    # per-site dtypes (a real or integer tensor is swept before / after a complex one) and magnitude regimes (every tensor times a
+    # power of two: exact; the norm of the whole object goes down to 2^-150 or up to 2^100)
+    for c in out:
+        u = rng.random()
+        if u < 0.15 and c['L'] >= 2:
+            c['dtype'] = 'complex'
+            c['sitedtypes'] = [rng.choice(['real', 'complex', 'int' if c['entries'] == 'int' else 'real']) for _ in range(c['L'])]
+        elif u < 0.30:
+            c['mag'] = rng.choice([-30, -24, -20, -10, 20])
     # the replayed subset (correspondence inside Coq): small enough for exact rational arithmetic
     left = NREPLAY[tier]
     left_c = NREPLAY_CHARGED[tier]
     for c in out:
-        small = c['L'] <= 3 and c['Dmax'] <= 3 and (c['cls'] == 'mps' or c['d'] <= 2)
+        small = c['L'] <= 3 and c['Dmax'] <= 3 and (c['cls'] == 'mps' or c['d'] <= 2) and not c.get('mag')   # the Coq-side tolerances are absolute
         if small and c.get('charged') and left_c > 0:
             c['replay'] = True
             left_c -= 1
@@ -87,6 +96,17 @@ def _charged_mpo(rs, L, d, Dmax, dtype, entries):
 
 
 def build(case):
+    obj = _build(case)
+    for i, t in enumerate(case.get('sitedtypes') or []):
+        if i < len(obj.A) and t != 'complex':
+            obj.A[i] = np.ascontiguousarray(obj.A[i].real).astype(np.int64 if t == 'int' else np.float64)
+    if case.get('mag'):
+        f = 2.0 ** case['mag']
+        obj.A = [a * f for a in obj.A]
+    return obj
+
+
+def _build(case):
     rs = np.random.default_rng(case['seed'])
     L, d = case['L'], case['d']
     if case.get('charged'):
@@ -118,7 +138,7 @@ def impl(case):
     v1 = dense(obj.A)
     n0 = float(np.linalg.norm(v0))
     res = {'nrm': float(np.real(nrm)), 'nrm_imag': float(np.imag(nrm)), 'norm0': n0,
-           'state_resid': float(np.linalg.norm(nrm * v1 - v0)) / (1.0 + n0),
+           'state_resid': float(np.linalg.norm(nrm * v1 - v0)) / (n0 if n0 > 0 else 1.0),
            'norm_after': float(np.linalg.norm(v1)), 'dims0': dims0, 'dims1': [int(x) for x in obj.bond_dims],
            'sparsity': (G.mps_sparsity_ok(obj) if is_mps else G.mpo_sparsity_ok(obj)),
            'qtotal_kept': bool(np.array_equal(obj.qD[0], q_first) and np.array_equal(obj.qD[-1], q_last))}
@@ -159,22 +179,23 @@ def prop(case, r):
         return ['orthonormalize raised %s: %s' % (r['error'], r.get('detail', ''))]
     msgs = []
     n0 = r['norm0']
+    zthr = 1e-12 * 2.0 ** (case.get('mag', 0) * case['L'])      # 'zero object' threshold follows the magnitude regime
     if r['nrm'] < 0 or abs(r['nrm_imag']) > 0:
         msgs.append('returned factor %r is not a non-negative real number' % r['nrm'])
-    if abs(r['nrm'] - n0) > TOL * (1 + n0):
+    if abs(r['nrm'] - n0) > TOL * (n0 if n0 > zthr else max(zthr, 1e-300) / 1e-12 if case.get('mag') else 1 + n0):
         msgs.append('returned factor %.12g differs from the norm %.12g of the original' % (r['nrm'], n0))
     if r['state_resid'] > TOL:
         msgs.append('factor * new dense object differs from the original (relative %.3g)' % r['state_resid'])
     # isometry: in the sector-disjoint (zero) case the dummy bond branch still yields isometries (Q = e_0)
     if max(r['iso'] + [0]) > 1e-8:
         msgs.append('site tensor not an isometry in the chosen direction (residual %.3g)' % max(r['iso']))
-    if n0 > 1e-12 and abs(r['norm_after'] - 1) > 1e-8:
+    if n0 > zthr and abs(r['norm_after'] - 1) > 1e-8:
         msgs.append('norm after orthonormalization is %.12g, not 1' % r['norm_after'])
     if not r['bond_bound_ok']:
         msgs.append('a bond is larger than the neighbouring dimensions allow: %s -> %s' % (r['dims0'], r['dims1']))
     if r['sparsity']:
         msgs.append('block sparsity / list lengths broken: %s' % r['sparsity'])
-    if n0 > 1e-12 and not r['qtotal_kept']:
+    if n0 > zthr and not r['qtotal_kept']:
         msgs.append('leading/trailing bond quantum numbers changed for a non-zero object')
     msgs += r.get('lapack', [])
     return msgs
@@ -220,7 +241,7 @@ def coq_diag(case, r):
 def klass(case, r):
     if 'error' in r:
         return 'error'
-    z = 'zero' if r['norm0'] < 1e-12 else 'nonzero'
+    z = 'zero' if r['norm0'] < 1e-12 * 2.0 ** (case.get('mag', 0) * case['L']) else 'nonzero'
     shrink = 'shrunk' if r['dims1'] != r['dims0'] else 'same-dims'
     rp = _replay(case, r)
     tag = '' if rp is None else ('/replayed-amb' if rp[1] else '/replayed')
